@@ -74,7 +74,7 @@ def cst_inputs(ctx, g, count, proj, conv_share=0.3):
         for fl in (False, True):
             for si in ((simple,) if R.random() < .6 else (False, True)):
                 conv = R.random() < conv_share
-                cases.append(op_decode(x, fl, si, conv=conv, as_bytearray=R.random() < .1,
+                cases.append(op_decode(x, fl, si, conv=conv, as_bytearray=R.choice([False] * 8 + [True, "view"]),
                                        gen=("cst mutated" if mutated else "cst well-formed") + (" +convert" if conv else ""), proj=proj))
     # length fields of 16..127 length-bytes (the 4-bit mask trap), truncated and not
     for _ in range(max(20, count // 40)):
@@ -130,8 +130,23 @@ def nested_probe(ctx):
     return {"exception": fails(hi), "min_depth": hi, "input_bytes": len(nest(hi)), "recursion_limit": old}
 
 
+def sibling_probe(ctx):
+    """width, not depth: thousands of sibling templates / objects decode in every mode (nothing may recurse per sibling)"""
+    for n in (1500, 4000):
+        for body in (b"\x9c\x01\x07", b"\xe1\x03\x9c\x01\x07", b""):
+            x = b"".join(bytes([0xE0 if i % 2 else 0xE2]) + gens.ber_len(len(body)) + body for i in range(n))
+            x = b"\x70" + gens.ber_len(len(x)) + x
+            for fl in (False, True):
+                try:
+                    r = tlv.decode(x, flatten=fl); ok = isinstance(r, dict)
+                except Exception as e:  # noqa: BLE001
+                    ok = False; r = type(e).__name__
+                ctx.check("thousands of sibling templates decode", ok, f"decode(<{n} sibling templates, {len(x)} bytes>, flatten={fl}) -> {r if not ok else 'ok'}")
+
+
 def C09(ctx):
     g = G(ctx.sub("g"))
+    sibling_probe(ctx)
     tlv_enum(ctx, ctx.n(5, 7), 0, "c09")
     cases = cst_inputs(ctx, g, ctx.n(6000, 80000), "c09")
     ctx.run_cases(cases)
@@ -423,6 +438,8 @@ def C18(ctx):
             for si in (False, True):
                 inputs.append((x, si, None, False))
     ctx.exhaustive_dims.append(f"every byte string over the 14-symbol alphabet up to length {ctx.n(4, 5)} × {{normal, simple}} (laws on the real code)")
+    cases += cst_inputs(ctx, g, ctx.n(2500, 25000), "nokind", conv_share=0.5)      # mutated inputs too: the two views fail together
+    sibling_probe(ctx)
     ctx.run_cases(cases)
     nlaw = 0
     for x, simple, items, canonical in inputs:
